@@ -144,7 +144,11 @@ def _random(draw):
             mask = draw(st.integers(1, 2**n - 1))
             sub = [l for i, l in enumerate(leaves) if mask >> i & 1]
             subsets.append(sub)
-        return {"kind": "supertree", "tree": nw(t) + ";", "subsets": subsets}
+        case = {"kind": "supertree", "tree": nw(t) + ";", "subsets": subsets}
+        if n <= 6 and draw(st.booleans()):
+            # restrictions of two different trees: possibly incompatible inputs
+            case["tree2"] = nw(draw(gen.nested_tree(leaves))) + ";"
+        return case
     n = draw(st.integers(1, 9))
     hist = draw(st.lists(st.tuples(st.integers(0, n - 1), st.integers(0, n - 1)).map(list), max_size=30))
     return {"kind": "unions", "n": n, "hist": hist}
@@ -225,23 +229,51 @@ def check(case):
         total = len(leaves) * (len(leaves) - 1) * (len(leaves) - 2) // 2
         return Result(0 < len(triples) < total, ["triples", f"leaves={len(leaves)}", "consistent" if ref else "inconsistent"], evals=2)
     if kind == "supertree":
+        from superrec2.utils.trees import all_supertrees
+
         t = parse_nested(case["tree"])
-        parts = [restrict(t, set(s)) for s in case["subsets"]]
+        t2 = parse_nested(case["tree2"]) if "tree2" in case else t
+        parts = [restrict(t if i % 2 == 0 else t2, set(s)) for i, s in enumerate(case["subsets"])]
         parts = [p for p in parts if p is not None]
         trees = [Tree(nw(p) + ";", format=1) for p in parts]
+        before = [x.write(format=9) for x in trees]
         sup = supertree(trees)
         all_leaves = frozenset().union(*(leafset(p) for p in parts))
+        part_triples = [[tr for tr in itertools.permutations(sorted(leafset(p)), 3) if tr[0] < tr[1] and displays(p, tr)] for p in parts]
+        ref = None
+        if len(all_leaves) <= 6:
+            ref = [b for b in all_binary_on(sorted(all_leaves)) if all(displays(b, tr) for trs in part_triples for tr in trs)]
+        labels = ["supertree", "two_sources" if "tree2" in case else "one_source"]
         if sup is None:
-            raise Violation("supertree.none-for-compatible-trees", observed=None, expected="a supertree", extra={"parts": [nw(p) for p in parts]})
-        nested = ete_nested(sup)
-        if leafset(nested) != all_leaves:
-            raise Violation("supertree.leaves", observed=sorted(leafset(nested)), expected=sorted(all_leaves))
-        for p in parts:
-            # sup displays p iff every triple displayed by p is displayed by sup
-            for tr in itertools.permutations(sorted(leafset(p)), 3):
-                if tr[0] < tr[1] and displays(p, tr) and not displays(nested, tr):
-                    raise Violation("supertree.does-not-display-input", observed=sup.write(format=9), expected=nw(p), extra={"triple": tr})
-        return Result(len(all_leaves) >= 4, ["supertree"], evals=1)
+            if "tree2" not in case or ref:
+                raise Violation("supertree.none-for-compatible-trees", observed=None, expected="a supertree", extra={"parts": [nw(p) for p in parts]})
+            labels.append("incompatible")
+        else:
+            if ref is not None and not ref:
+                raise Violation("supertree.tree-for-incompatible-trees", observed=sup.write(format=9), expected=None, extra={"parts": [nw(p) for p in parts]})
+            nested = ete_nested(sup)
+            if leafset(nested) != all_leaves:
+                raise Violation("supertree.leaves", observed=sorted(leafset(nested)), expected=sorted(all_leaves))
+            if "tree2" not in case or ref is not None:
+                for p, trs in zip(parts, part_triples):
+                    # sup displays p iff every triple displayed by p is displayed by sup
+                    for tr in trs:
+                        if not displays(nested, tr):
+                            raise Violation("supertree.does-not-display-input", observed=sup.write(format=9), expected=nw(p), extra={"triple": tr})
+        evals = 1
+        if ref is not None:
+            # all_supertrees: exactly the binary trees on the union of the leaves that display every input, each once
+            exp = sorted(sorted(map(sorted, clades_nested(b))) for b in ref)
+            got = sorted(sorted(map(sorted, ete_clades(g))) for g in all_supertrees(trees))
+            evals += 1
+            if got != exp:
+                if len(got) != len({str(g) for g in got}):
+                    raise Violation("all_supertrees.duplicate", observed=len(got), expected=len(exp))
+                raise Violation("all_supertrees.set", observed=len(got), expected=len(exp), extra={"parts": [nw(p) for p in parts]})
+            labels.append("all_supertrees=" + ("0" if not exp else "1" if len(exp) == 1 else ">1"))
+        if [x.write(format=9) for x in trees] != before:
+            raise Violation("supertree.input-modified", observed=[x.write(format=9) for x in trees], expected=before)
+        return Result(len(all_leaves) >= 4, labels, evals=evals)
     # unions
     n = case["n"]
     ds = DisjointSet(n)
